@@ -133,11 +133,11 @@ pub fn generate(input: TokenStream) -> TokenStream {
                     );
                 }
 
-                let ty = &mut fields
-                    .unnamed
-                    .first_mut()
-                    .expect("Already checked len; qed")
-                    .ty;
+                let ty = match fields.unnamed.first_mut() {
+                    Some(field) => &mut field.ty,
+                    // Empty tuple variant `A()`: the error has been reported above
+                    None => continue,
+                };
                 let ty = parser.get_type(ty);
 
                 VariantKind::Value(var_ident, ty)
